@@ -25,10 +25,23 @@ LineCost(fs, pre, n, i, j, lw, pen) ==
   LET target == Max2(lw, 1)
       width == pre[j + 1] - pre[i + 1] - fs[j].ws + fs[j].pw
       c1 == IF width > target THEN (width - target) * pen.over
-            ELSE IF j < n THEN (IF HasDev("opt_linear_gap") THEN (target - width) ELSE (target - width) * (target - width))
+            ELSE IF j < n THEN (target - width) * (target - width)
             ELSE IF i + 1 = j /\ (pen.frac = 0 \/ width * pen.frac < target) THEN pen.short
             ELSE 0
       c2 == IF fs[j].pw > 0 THEN pen.hyph ELSE 0
+  IN pen.nline + c1 + c2
+
+\* the same with one classic mistake switched on by a named deviation (used by the step machine of
+\* MC_Optimal only; the declarative minimum above is never deviated)
+LineCostOp(fs, pre, n, i, j, lw, pen) ==
+  LET target == Max2(lw, 1)
+      width == (IF HasDev("opt_presum_off_by_one") /\ i > 0 THEN pre[j + 1] - pre[i] ELSE pre[j + 1] - pre[i + 1]) - fs[j].ws + fs[j].pw
+      c1 == IF width > target THEN (width - target) * pen.over
+            ELSE IF j < n \/ HasDev("opt_last_line_not_exempt")
+                 THEN (IF HasDev("opt_linear_gap") THEN (target - width) ELSE (target - width) * (target - width))
+            ELSE IF i + 1 = j /\ (pen.frac = 0 \/ width * pen.frac < target) THEN pen.short
+            ELSE 0
+      c2 == IF fs[j].pw > 0 /\ ~HasDev("opt_no_hyphen_penalty") THEN pen.hyph ELSE 0
   IN pen.nline + c1 + c2
 
 \* cost of a whole arrangement (sequence of <<first,last>>), line k measured against the k-th width
